@@ -139,6 +139,10 @@ def analyse_fd(chk, prog, f, closer_fns, fresh_ctors):
             if fct[0] == "cmp" and ((fct[1] == "<" and fct[3] == "0") or (fct[1] == "<=" and fct[3] == "-1")):
                 # the local that took a descriptor over turns out to hold none
                 st = set(x for x in st if not (x[0] == "held" and "d%d" % x[1] == fct[2]))
+                # a local copy of the field's current value is negative: so is the field (no open descriptor in it)
+                for x in list(st):
+                    if x[0] == "fdcopy" and "d%d" % x[1] == fct[2]:
+                        st.add(("closed", x[2]))
         return frozenset(st)
 
     def join(a, b):
